@@ -232,7 +232,7 @@ def classify_k(r: KResult, expect_fail=False):
     return "inconclusive", [f"{r.name}: {r.status}"]
 
 
-def kani_playback_print(crate, harness, timeout=1800):
+def kani_playback_print(crate, harness, timeout=900):
     """Re-run one failing harness with concrete playback; return (test_source or None, log text)."""
     cwd, pargs, tdir = kani_dirs(crate)
     env = dict(ENV)
@@ -246,8 +246,10 @@ def kani_playback_print(crate, harness, timeout=1800):
     except subprocess.TimeoutExpired as e:
         out = (e.stdout or b"").decode(errors="replace") if isinstance(e.stdout, bytes) else (e.stdout or "")
         return None, out
-    m = re.search(r"Concrete playback unit test for `[^`]+`:\s*```\n(.*?)```", out, re.S)
-    return (m.group(1) if m else None), out
+    tests = re.findall(r"Concrete playback unit test for `[^`]+`:\s*```\n(.*?)```", out, re.S)
+    # Kani also emits a test per satisfied cover; keep the counterexamples of failed assertions/checks
+    fails = [t for t in tests if not re.search(r"/// Check for `cover`", t)]
+    return ("\n".join(fails) if fails else None), out
 
 
 def playback_file(crate):
